@@ -163,7 +163,7 @@ def cases_for(prop, tier, roots, rng, wd=None):
         log("%s: synthetic placements %d, well-formed %d" % (prop, len(scand), len(synth)))
         for f in synth[: (1500 if T else 150)]:
             add(f, [{"op": "dfs", "depth": 1}], "synthetic placement (castling rights, e.p. pairs, arbitrary material): every emitted move")
-        for f in synth[(1500 if T else 150):]:
+        for f in (synth[(1500 if T else 150):] if prop != "C03" else []):
             add(f, [{"op": "gen"}] if prop in ("C01", "C05") else [{"op": "bare_all"}], "synthetic placement")
 
     sparse = [r for r in roots if r["n"] <= 25]
